@@ -739,6 +739,9 @@ def check(P, R, tier):
     check_tzmap(P, R)
     check_keyend(P, R)
     check_tzm_format(P, R)
+    import tzmdecode
+    nv = tzmdecode.run(R, P, "RF2-tzmvalid")
+    R.floor("RF2-tzmvalid", "decoded verdicts of the map validator", nv, 100)
     import zifdecode
     nz = zifdecode.run(R, P, "RF2-zifopen") + zifdecode.run_truncated(R, P, "RF2-zifopen")
     R.floor("RF2-zifopen", "decoded loads of synthetic zone files and of their prefixes", nz, 500)
